@@ -77,7 +77,7 @@ PROPS = {
         [MODEL_NOTE, "maps with non-string keys inside evaluated data: order-freeness not proved (they cannot be quantified over)"]),
     "C16": P("P_C16.v", ["C16"], T_PARSER + T_EVAL,
         "the rendering relation RF (all layouts, redundant parentheses, precedence, every match operator, quantifiers with four binding forms, selector spellings, quoted/raw/bare/integer literals) is read back by the parser as the tree, for trees of unbounded depth; Unquote(quote_double s) = s and the Parse-level literal fidelity theorem hold for EVERY byte string; not-not folding",
-        [MODEL_NOTE, "side conditions of the proved family (stated in the records the theorem ranges over): the first rune of a selector atom is not `n`, that of a quantified selector none of `c i m n`, that of a double-quoted literal not `/` (the D9 family is c16_literal_fidelity_all's); everything else about those texts is covered by the correspondence"]),
+        [MODEL_NOTE, "side conditions of the proved family (stated in the records the theorem ranges over): a bare name at the head of an expression is not the keyword `not`, the name of a quantified selector is none of `contains not matches is in`, a double-quoted literal of the operator grid does not begin with `/` (the D9 family is c16_literal_fidelity_all's)"]),
     "C17": P("P_C17.v", ["C17"], T_API,
         "Execute on slices, arrays and maps keeps exactly the elements on which evaluate is true, in order, with the stated result type; nil filter identity; first error; non-containers are errors; idempotence; partition",
         [MODEL_NOTE, "input immutability is observed at run time"],
